@@ -138,8 +138,8 @@ class Machine:
 
     # ------------------------------------------------------------------ values
     def alloc(self, v, name=None):
-        self.heap_n += 1
-        k = name or ('h%d' % self.heap_n)
+        self.shared['heap'] = self.shared.get('heap', 0) + 1        # one counter for all frames: they share the environment
+        k = name or ('h%d' % self.shared['heap'])
         self.env[k] = v
         return ('ptr', k, ())
 
@@ -172,12 +172,24 @@ class Machine:
                     return v[key]
                 if name in v:
                     return v[name]
+                if v.get('__open__'):
+                    return sym('%s.%s' % (v.get('__adt__', '?'), name))      # a part of the input the rule leaves open
                 raise Unknown('field %s of %s' % (name, v.get('__adt__')))
             raise Unknown('field %s of %r' % (name, v))
         if isinstance(pe, dict) and 'downcast' in pe:
             if isinstance(v, dict) and v.get('__variant__') not in (None, pe['downcast']):
                 raise Unknown('downcast to %s of a %s' % (pe['downcast'], v.get('__variant__')))
             return v
+        if isinstance(pe, dict) and ('index' in pe or 'cidx' in pe):
+            # `place[i]` on a slice / array / vector the machine holds
+            i = pe['cidx'] if 'cidx' in pe else self.deref_value(self.load(self.k(pe['index'])))
+            if is_ptr(v):
+                v = self.read(v[1], v[2])
+            if isinstance(v, tuple) and len(v) >= 2 and v[0] in ('vec', 'tuple', 'str') and isinstance(i, int) and not isinstance(i, Rep):
+                if not 0 <= i < len(v[1]):
+                    raise Unknown('index %d into a sequence of %d' % (i, len(v[1])))
+                return v[1][i]
+            raise Unknown('index %r into %r' % (i, v if not isinstance(v, tuple) else v[0]))
         raise Unknown('projection %r' % (pe,))
 
     def read(self, local, proj=()):
@@ -385,6 +397,19 @@ class Machine:
                     local, pre = cur[1], list(cur[2])         # follow the pointer; a field of a pointer auto-derefs
                     if pe == 'deref':
                         continue
+                elif isinstance(pe, dict) and 'index' in pe:
+                    i = self.deref_value(self.load(self.k(pe['index'])))
+                    seq = self.read(cur[1], cur[2]) if is_ptr(cur) else cur
+                    if not (isinstance(seq, tuple) and len(seq) >= 2 and seq[0] in ('vec', 'tuple') and isinstance(i, int) and 0 <= i < len(seq[1])):
+                        raise Unknown('reference to element %r' % (i,))
+                    item = seq[1][i]
+                    if is_ptr(item):
+                        local, pre = item[1], list(item[2])        # the element is itself a reference / Rc: point at its target
+                    else:
+                        if is_ptr(cur):
+                            local, pre = cur[1], list(cur[2])
+                        pre.append({'cidx': i})
+                    continue
                 elif pe == 'deref':
                     if s.get('mut') is False and rv == 'ref' and isinstance(cur, (dict, tuple)) and not is_sym(cur) and isinstance(local, (int, tuple)) and not (isinstance(local, tuple) and local and local[0] == 'ptr'):
                         # a shared reference through a by-value stand-in of a reference held in a local (the item a slice iterator
@@ -412,6 +437,8 @@ class Machine:
             if s['op'] == 'Neg' and isinstance(a, (int, float)) and not isinstance(a, Rep):
                 return -a
             if s['op'] == 'PtrMetadata':
+                if isinstance(a, tuple) and len(a) >= 2 and a[0] in ('vec', 'str', 'tuple') and isinstance(a[1], list):
+                    return len(a[1])                   # the length of a slice the machine holds
                 return sym('len')
             raise Unknown('unop %s' % s['op'])
         if rv == 'cast':
